@@ -282,3 +282,29 @@ func checkUploadAfterDistribute(c *core.Ctx) {
 		}
 	}
 }
+
+// R05.16: the engine goroutine leaves only when no re-run was asked for.
+func checkEngineLeavesOnlyWithoutRerun(c *core.Ctx) {
+	st := c.Rule("R05.16", "Driver.runEngine marks the engine as not running (and leaves) only on a path on which it found engineRerun false: runAsync, finding the engine marked running, only records a re-run request. A re-run test with a second conjunct lets the goroutine leave with a request recorded: the tick for the new command stays in the event queue, the simulated clock stops and the application thread waits in DrainCommandQueue - whether that happens depends on where the host scheduler put the request relative to the end of Engine.Run", 1)
+	fn := c.MustFunc("R05.16", driverPkg, "Driver.runEngine")
+	if fn == nil {
+		return
+	}
+	c.MarkAnalysed(fn)
+	g := core.BuildGraph(fn, 0, nil)
+	for _, n := range g.Nodes {
+		s, ok := storeToField(n.Instr, "Driver.engineRunning")
+		if !ok {
+			continue
+		}
+		if b, isC := core.ConstBool(s.Val); !isC || b {
+			continue
+		}
+		st.Instances++
+		good := g.Guarded(n, BoolFieldCut("Driver.engineRerun", false))
+		st.Ob(good)
+		if !good {
+			c.ReportAt("R05.16", fn, n.Instr.Pos(), "engine-leaves-with-rerun-pending", "runEngine clears engineRunning on a path that did not find engineRerun false: a re-run request recorded by runAsync is dropped")
+		}
+	}
+}
